@@ -380,6 +380,102 @@ def r6_unconditional_invalidation(idx, r, only=None):
                             "confirmed by reading (MUST_INVALIDATE / MAY_SKIP_INVALIDATION) - review and add it to one of the tables", node=bad[0].node if bad[0].node is not None else f.node)
 
 
+GEOM_READS = {"getVolume", "getArea", "getMass", "getNumberDensity", "getNumberDensities", "getNuclideNumberDensities", "getVolumeFractions",
+              "getHeight", "getDimension", "getComponentArea", "getSymmetryFactor"}
+MASS_ACCESSORS = {"getMass", "getMasses", "getMassFrac", "getMassFracs", "getNumberOfAtoms", "getHMMass", "getHMMoles", "getFissileMass", "getFissileMassEnrich",
+                  "getFuelMass", "getMicroSuffix"} - {"getMicroSuffix"}
+
+
+def r8_cache_levels(idx, r):
+    """The composite cache (`self.cached`, _getCached/_setCache) is dropped by clearCache(), which every implementation propagates DOWN to
+    the children only; geometry mutators call it on the component and on its parent block.  A geometry- or composition-derived value cached
+    by a method that assemblies/cores inherit (ArmiObject, Composite, Assembly, Core ...) is therefore never dropped when a child changes."""
+    blk = idx.cls("armi.reactor.blocks.Block")
+    cmpc = idx.cls(COMP)
+    low = {c.fq for c in [blk, cmpc] + idx.subclasses(blk) + idx.subclasses(cmpc)}
+    upward = False
+    n_clear = 0
+    for m in idx.modules.values():
+        if not m.name.startswith("armi.reactor") or ".tests" in m.name:
+            continue
+        for f in m.all_funcs():
+            if f.name == "clearCache":
+                n_clear += 1
+                if any(dotted(c.func) == "self.parent.clearCache" for c in iter_calls(f.node)) and f.cls is not None and f.cls.fq not in {c.fq for c in [cmpc] + idx.subclasses(cmpc)}:
+                    upward = True
+    if n_clear < 2:
+        raise AnalysisError("clearCache implementations not found")
+    n = 0
+    for m in idx.modules.values():
+        if not m.name.startswith("armi.reactor") or ".tests" in m.name:
+            continue
+        for f in m.all_funcs():
+            sets = [c for c in iter_calls(f.node) if dotted(c.func) == "self._setCache"] + [s.node for s in iter_stores(f.node) if s.kind == "subscript" and s.chain == "self.cached"]
+            if not sets or f.name in ("_setCache",):
+                continue
+            n += 1
+            geom = any(call_attr(c) in GEOM_READS for c in iter_calls(f.node))
+            ok = (f.cls is not None and f.cls.fq in low) or not geom
+            if not ok and upward:
+                r.undecided(f"{f.qualname}:cache-level", f, "caches a geometry-derived value above block level while some clearCache propagates upward; not decided")
+                continue
+            r.require(ok, f"{f.qualname}:cache-at-block-level-or-below", f, node=sets[0],
+                      msg=f"{f.qualname} caches a geometry/composition-derived value in a method that assemblies and cores inherit, but clearCache() only reaches a block, its "
+                          "components and their descendants: after a child's volume changes the assembly/core keeps serving the stale value")
+    if n < 1:
+        raise AnchorMissing("no composite-cache writer found (Block.getArea caches `area`)")
+
+
+def r9_mass_from_number_densities(idx, r):
+    """Mass accessors read the number densities; none may go through Component.density(), whose handbook fall-back answers for a component
+    with all densities zero - mass would then differ from the sum over nuclides."""
+    n = 0
+    for m in idx.modules.values():
+        if not m.name.startswith("armi.reactor") or ".tests" in m.name:
+            continue
+        for f in m.all_funcs():
+            if f.name not in MASS_ACCESSORS or f.cls is None:
+                continue
+            n += 1
+            bad = [c for c in iter_calls(f.node) if dotted(c.func) == "self.density"]
+            r.require(not bad, f"{f.qualname}:no-handbook-density", f, node=bad[0] if bad else None,
+                      msg="a mass accessor goes through self.density(), which falls back to the material's handbook density when all number densities are zero: "
+                          "getMass() then differs from the sum of the nuclide masses")
+    gm = idx.method(COMP, "getMass")
+    rets = [x for x in walk_local(gm.node) if isinstance(x, ast.Return) and x.value is not None]
+    env = single_assign_env(gm.node)
+    for x in rets:
+        v = propagate(x.value, env)
+        r.require(any(call_attr(c) == "getNuclideNumberDensities" for c in ast.walk(v) if isinstance(c, ast.Call)), "Component.getMass:return-reads-number-densities", gm, node=x,
+                  msg="a return of Component.getMass does not depend on the component's number densities")
+    if n < 6:
+        raise AnalysisError(f"only {n} mass accessors found")
+
+
+def r10_scaling_guard(idx, r):
+    """Block.adjustDensity scales every listed nuclide by `frac`; the only admissible skip is a density that is already zero.
+    A skip condition that depends on `frac` (e.g. on the product) exempts frac == 0 from scaling."""
+    f = idx.method("armi.reactor.blocks.Block", "adjustDensity")
+    frac = f.params()[1]
+    taint = {frac}
+    changed = True
+    while changed:
+        changed = False
+        for s in iter_stores(f.node):
+            if s.kind == "assign" and isinstance(s.node, ast.Name) and s.value is not None and s.attr not in taint and any(isinstance(x, ast.Name) and x.id in taint for x in ast.walk(s.value)):
+                taint.add(s.attr)
+                changed = True
+    sets = [c for c in iter_calls(f.node) if dotted(c.func) == "self.setNumberDensity"]
+    if not sets:
+        raise AnchorMissing("Block.adjustDensity: self.setNumberDensity(...)")
+    for c in sets:
+        conds = path_conditions(f.node, c)
+        bad = [t for t, _p in conds if any(isinstance(x, ast.Name) and x.id in taint for x in ast.walk(t))]
+        r.require(not bad, "Block.adjustDensity:skip-independent-of-factor", f, node=bad[0] if bad else c,
+                  msg=f"whether a density is rescaled depends on `{norm(bad[0]) if bad else ''}`, i.e. on the factor: adjustDensity(0.0, ...) leaves the densities unchanged")
+        r.require(any(isinstance(x, ast.Name) and x.id in taint for a in c.args[1:] for x in ast.walk(a)), "Block.adjustDensity:new-density-uses-factor", f, node=c, msg="the density written does not depend on the factor")
+
+
 def run(idx, chk):
     chk.explanation = (
         "C02: 24 conversion/accounting functions are typed in the free abelian group of physical units (cm, g, mol, barn, atom) plus a role generator "
@@ -401,3 +497,9 @@ def run(idx, chk):
                  necessary="'setting one nuclide must not change the others' - nor another component's")
     chk.run_rule("R02.7", "block-level densities are de-homogenised over exactly the children that receive them", lambda r: r7_dehomogenisation_range(idx, r), floor=2,
                  necessary="density read back at block level = density set: sum over receivers of (N / sum vf) x vf = N")
+    chk.run_rule("R02.8", "geometry-derived values are cached only at block level or below (where clearCache reaches)", lambda r: r8_cache_levels(idx, r), floor=1,
+                 necessary="volume fractions / volumes served at assembly and core level are those of the children's current state")
+    chk.run_rule("R02.9", "mass accessors read the number densities and never the handbook-density fall-back", lambda r: r9_mass_from_number_densities(idx, r), floor=7,
+                 necessary="mass = sum over nuclides of N x A x V / N_A at every level")
+    chk.run_rule("R02.10", "Block.adjustDensity skips only densities that are zero; the skip never depends on the factor", lambda r: r10_scaling_guard(idx, r), floor=2,
+                 necessary="scaling by a factor scales every listed nuclide, including factor 0")
